@@ -263,7 +263,12 @@ def reuse_in_place(sym, ti):
     sym.check(_same(sym, first, InteractionsEncoder(terms).encode(x=X, a=A)), f"first call differs from a fresh encoder :: terms={terms}", model=witness)
     if kind == 'vec': X[:] = x2; A[:] = a2
     else:
-        X.clear(); X.update({f'k{i}':v for i,v in enumerate(x2)}); A.update({'p':a2[0],'q':a2[1]})
+        X.clear()
+        items = [(f'k{i}',v) for i,v in enumerate(x2)]
+        if sym.flag('reordered'): items.reverse()                      # the same feature names may come back in another insertion order
+        X.update(items)
+        if sym.flag('a_reordered'): A.clear(); A.update([('q',a2[1]),('p',a2[0])])
+        else: A.update({'p':a2[0],'q':a2[1]})
     got = enc.encode(x=X, a=A)
     ref = InteractionsEncoder(terms).encode(x=X, a=A)
     sym.check(_same(sym, got, ref), f"second call (same objects, content changed in place) differs from a fresh encoder on the new content :: terms={terms}", model=witness)
